@@ -765,10 +765,12 @@ def part_history(case):
                 if now[k2] > start[k2] + 2:
                     problems.append({"sym": "global-state-changed:open_fds", "detail": f"after step {step} ({kind}): {start[k2]} -> {now[k2]}"})
             elif now[k2] != start[k2]:
-                problems.append({"sym": f"global-state-changed:{k2.split(':')[0]}", "detail": f"after step {step} ({kind} {recipe.get('op')}): {k2}: {start[k2]} -> {now[k2]}"})
+                problems.append({"sym": f"global-state-changed:{k2.split(':')[0]}", "feature": _feature(_step(st)) if isinstance(pidx, dict) else "",
+                                 "detail": f"after step {step} ({_short(st)}): {k2}: {start[k2]} -> {now[k2]}"})
+                start[k2] = now[k2]          # reported once, for the step that did it
     first = {}
     for p in problems:
-        first.setdefault(p["sym"], p)
+        first.setdefault((p["sym"], p.get("feature")), p)
     return {"part": "history", "steps": steps, "digests": digests, "shas": shas, "problems": list(first.values())}
 
 
@@ -892,11 +894,9 @@ def main(run):
         # (the AES-256 member takes seconds per extraction: it stays in the histories, the threads get the cheap members)
         stress_cases.append({"part": "stress", "seed": run.seed * 1000 + 500 + gi, "threads": 8, "iterations": run.n(10, 30), "group": g["name"],
                              "inputs": [[k, s, pidx_of(s)] for k, s in g["members"] if not (s[0] == "raw" and "aes256" in str(s[2:]))]})
-        if g["name"] == "pdf:cipher-kernel/document-key":
-            # the per-object keys of these documents outnumber the round-key memo (capacity 4): concurrent decryption evicts all the time.  The
-            # case above runs with a memo that never evicts (control twin); this one with the memo as shipped, its problems keyed by that feature
-            stress_cases[-1]["no_memo_eviction"] = True
-            stress_cases.append(dict(stress_cases[-1], no_memo_eviction=False, seed=run.seed * 1000 + 900 + gi, feature_suffix="+round-key-memo-evicting"))
+        # (the per-object keys of the AES members outnumber the round-key memo, capacity 4: concurrent decryption evicts all the time.  The memo's
+        #  lookup / LRU race was found here and is fixed upstream; part 1c explores the memo deterministically.  A case may still set
+        #  "no_memo_eviction" / "feature_suffix" to run a control twin with a memo that never evicts, should that mechanism need separating again.)
     hist_cases = []
     pool_steps = [[k, {"src": s, "op": None}] for k, s in pdfs + others]
     # failing / damaged inputs of every kind in the pool (archives included: a failure half-way through unpacking must clean up too)
@@ -1041,7 +1041,7 @@ def main(run):
             if case.get("group"):
                 group_steps += ob["steps"]
             for p in ob["problems"]:
-                run.violation(f"C15:history:sequence:{p['sym']}", p["detail"], rep)
+                run.violation(f"C15:history:{p.get('feature') or 'sequence'}:{p['sym']}", p["detail"], rep)
             for key, ds in ob["digests"].items():
                 b = baselines.get(key)
                 if b is not None and ob.get("shas", {}).get(key) != base_sha.get(key) and any(d != b for d in ds):
